@@ -182,6 +182,30 @@ func runC17Case(r *ev.Run, c c17Case) int {
 	case <-time.After(watchdog + timeout):
 		hung = true
 	}
+	// the caller carries on with the Client after the call that ran into the stall has returned its error
+	followHung, followRan := false, false
+	var followErr error
+	var followEl time.Duration
+	if !hung && !setupFailed && (cfg.Call == "send" || cfg.Call == "reset") && callErr != nil {
+		followRan = true
+		fdone := make(chan struct{})
+		go func() {
+			defer close(fdone)
+			defer func() { _ = recover() }()
+			t0 := time.Now()
+			if cfg.Call == "send" {
+				followErr = cl.Reset()
+			} else {
+				followErr = cl.Send(msg)
+			}
+			followEl = time.Since(t0)
+		}()
+		select {
+		case <-fdone:
+		case <-time.After(watchdog + timeout):
+			followHung = true
+		}
+	}
 	stallVerb := "none"
 	steps := 0
 	sess, conns := farm.Snapshot()
@@ -221,6 +245,15 @@ func runC17Case(r *ev.Run, c c17Case) int {
 	r.Count("stalls_executed", 1)
 	r.Seen("stall_points", cfg.Call+":"+stallVerb)
 	key := fmt.Sprintf("%s:%s:%s", cfg.Call, stallVerb, cfg.TLS)
+	if followRan {
+		r.Count("follow_up_calls_after_a_stalled_call", 1)
+		if followHung {
+			viol("follow-up-call-blocked:"+key, fmt.Sprintf("%s returned its error after the stall at %s; the next call on the same Client (%s) was still blocked %v later (timeout %v)", cfg.Call, stallVerb, map[string]string{"send": "Reset", "reset": "Send"}[cfg.Call], watchdog+timeout, timeout), nil)
+		} else {
+			r.Max("max_follow_up_return_ms", followEl.Milliseconds())
+			_ = followErr
+		}
+	}
 	if !hung && ret {
 		el := retAt.Sub(cs)
 		r.Max("max_return_ms", el.Milliseconds())
@@ -298,7 +331,7 @@ func c17Configs(thorough bool) []c17Config {
 
 func runC17(r *ev.Run, rep *ev.ReplayDoc) ev.Summary {
 	sum := ev.Summary{
-		Rule: "for DialWithContext, DialAndSend, Send and Reset x {no TLS, STARTTLS} x {no auth, PLAIN, LOGIN, AUTH after STARTTLS, HELO fallback} x {context.Background, a caller context whose own deadline is an hour away} x {fresh Client, Client that has just completed a healthy DialAndSend}: the reference server goes silent (holding the connection) at every command position of the dialogue in turn - greeting, EHLO, HELO, STARTTLS reply, inside the TLS handshake, post-TLS EHLO, every AUTH step, NOOP, MAIL, each RCPT, DATA, inside the content, end-of-data reply, RSET, QUIT. The tracking conn records the deadline armed at the entry of every Read/Write. non-trivial = the stall point was reached; distinct by (configuration, stall point)",
+		Rule: "for DialWithContext, DialAndSend, Send and Reset x {no TLS, STARTTLS} x {no auth, PLAIN, LOGIN, AUTH after STARTTLS, HELO fallback} x {context.Background, a caller context whose own deadline is an hour away} x {fresh Client, Client that has just completed a healthy DialAndSend}: the reference server goes silent (holding the connection) at every command position of the dialogue in turn - greeting, EHLO, HELO, STARTTLS reply, inside the TLS handshake, post-TLS EHLO, every AUTH step, NOOP, MAIL, each RCPT, DATA, inside the content, end-of-data reply, RSET, QUIT. The tracking conn records the deadline armed at the entry of every Read/Write. After a stalled Send / Reset has returned its error, the other one of the two is called on the same Client and has to return, too. non-trivial = the stall point was reached; distinct by (configuration, stall point)",
 		Assumptions: []string{
 			"generous bound: a call counts as blocked only if it has not returned max(20 x timeout, 5 s) + timeout after it started",
 			"violation = still blocked AND the pending network operation was entered without a deadline (the logical cause); blocked with a deadline armed = inconclusive",
